@@ -1,7 +1,9 @@
 pub mod gen;
 pub mod jv;
 pub mod proj;
+pub mod texpr;
 pub mod uni;
+pub mod val;
 
 use serde_json::Value;
 use std::io::{BufRead, Write};
